@@ -163,3 +163,147 @@ Proof.
   rewrite (fld_load m lb blk L_ln_n _ _ Hb Hn) by reflexivity. xstep. rewrite wrap_I32_id by lia.
   unfold blen. rewrite map_length. reflexivity.
 Qed.
+
+(* ------------------------------------------------------------------ chop: the character view of a line *)
+(* the first character of a string, as MotDefs.chop cuts it ("" for the empty string) *)
+Definition hd_chr (t : bytes) : chr := match t with [] => [] | _ => firstn (Nat.max 1 (uc_next t)) t end.
+
+Lemma nonul_next t : nonul t -> t <> [] -> Nat.max 1 (uc_next t) = uc_next t /\ (1 <= uc_next t <= length t)%nat /\ uc_next t = S (uc_end t).
+Proof.
+  intros Hn Ht. pose proof (uc_next_nonul t Hn Ht) as E. pose proof (uc_end_lt t Ht). lia.
+Qed.
+Lemma chop_f_fuel : forall f1 f2 t, (length t <= f1)%nat -> (length t <= f2)%nat -> chop_f f1 t = chop_f f2 t.
+Proof.
+  induction f1 as [|f1 IH]; intros f2 t H1 H2.
+  - destruct t; [|cbn in H1; lia]. destruct f2; reflexivity.
+  - destruct t as [|x t]; [destruct f2; reflexivity|]. destruct f2 as [|f2]; [cbn in H2; lia|].
+    cbn [chop_f]. f_equal. apply IH; rewrite skipn_length; cbn [length] in *; lia.
+Qed.
+Lemma chop_cons t : t <> [] -> chop t = hd_chr t :: chop (skipn (Nat.max 1 (uc_next t)) t).
+Proof.
+  intro Ht. destruct t as [|x t]; [congruence|]. unfold chop at 1. cbn [length chop_f hd_chr]. f_equal.
+  unfold chop. apply chop_f_fuel; rewrite skipn_length; cbn [length]; lia.
+Qed.
+Lemma chop_nil : chop [] = [].
+Proof. reflexivity. Qed.
+Lemma hd0_firstn k (t : bytes) : (1 <= k)%nat -> hd0 (firstn k t) = hd0 t.
+Proof. intro H. destruct k; [lia|]. destruct t; reflexivity. Qed.
+Lemma hd0_hd_chr t : hd0 (hd_chr t) = hd0 t.
+Proof. destruct t as [|x t]; [reflexivity|]. unfold hd_chr. apply hd0_firstn. lia. Qed.
+
+(* uc_slen counts the characters of chop *)
+Lemma uc_slen_f_chop : forall k t, nonul t -> uc_slen_f k t = length (chop_f k t).
+Proof.
+  induction k as [|k IH]; intros t Hn; [reflexivity|]. destruct t as [|x t]; [reflexivity|].
+  cbn [uc_slen_f chop_f length]. f_equal.
+  destruct (nonul_next (x :: t) Hn ltac:(discriminate)) as (E1 & _ & E2). rewrite E1, E2.
+  apply IH. apply nonul_skipn. exact Hn.
+Qed.
+Lemma uc_slen_chop t : nonul t -> uc_slen t = length (chop t).
+Proof. intro H. apply uc_slen_f_chop. exact H. Qed.
+
+(* uc_chr(s, off) points at the character chop s has at index off: the pointed suffix starts with it
+   (the terminator = the empty character, also for off < 0 and off = the number of characters); the static ""
+   is returned exactly when the model reads the empty character beyond the line *)
+Lemma uc_chr_f_chop : forall k t i off base, nonul t -> (length t <= k)%nat ->
+  match uc_chr_f k t i off base with
+  | Some q => (base <= q <= base + length t)%nat /\ hd_chr (skipn (q - base) t) = chr_at (chop t) (off - i)
+  | None => chr_at (chop t) (off - i) = []
+  end.
+Proof.
+  induction k as [|k IH]; intros t i off base Hn Hk.
+  - destruct t; [|cbn in Hk; lia]. cbn [uc_chr_f]. unfold chr_at. rewrite chop_nil.
+    destruct ((off <? 0) || (i =? off)); [split; [cbn; lia|]; rewrite Nat.sub_diag|];
+      destruct (off - i <? 0); try reflexivity; destruct (Z.to_nat (off - i)); reflexivity.
+  - destruct t as [|x t].
+    + cbn [uc_chr_f]. unfold chr_at. rewrite chop_nil.
+      destruct ((off <? 0) || (i =? off)); [split; [cbn; lia|]; rewrite Nat.sub_diag|];
+        destruct (off - i <? 0); try reflexivity; destruct (Z.to_nat (off - i)); reflexivity.
+    + cbn [uc_chr_f]. destruct (nonul_next (x :: t) Hn ltac:(discriminate)) as (E1 & E3 & E2).
+      rewrite (chop_cons (x :: t)) by discriminate. rewrite E1.
+      destruct (Z.eqb_spec i off) as [->|Hne].
+      * split; [lia|]. rewrite Nat.sub_diag, Z.sub_diag. reflexivity.
+      * set (n := uc_next (x :: t)) in *.
+        specialize (IH (skipn n (x :: t)) (i + 1) off (base + n)%nat (nonul_skipn _ n Hn)).
+        rewrite skipn_length in IH. specialize (IH ltac:(cbn [length] in *; lia)).
+        assert (Hc : chr_at (hd_chr (x :: t) :: chop (skipn n (x :: t))) (off - i) = chr_at (chop (skipn n (x :: t))) (off - (i + 1))).
+        { unfold chr_at. destruct (Z.ltb_spec (off - i) 0); destruct (Z.ltb_spec (off - (i + 1)) 0); try lia; try reflexivity.
+          replace (Z.to_nat (off - i)) with (S (Z.to_nat (off - (i + 1)))) by lia. reflexivity. }
+        rewrite Hc. destruct (uc_chr_f k (skipn n (x :: t)) (i + 1) off (base + n)) as [q|]; [|exact IH].
+        destruct IH as [Hq IH]. split; [cbn [length] in *; lia|]. rewrite <- IH. rewrite skipn_skipn. f_equal. f_equal. lia.
+Qed.
+Lemma uc_chr_chop s off : nonul s ->
+  match uc_chr s off with
+  | Some q => (q <= length s)%nat /\ hd_chr (skipn q s) = chr_at (chop s) off
+  | None => chr_at (chop s) off = []
+  end.
+Proof.
+  intro Hn. pose proof (uc_chr_f_chop (length s) s 0 off 0 Hn ltac:(lia)) as H. unfold uc_chr.
+  rewrite Z.sub_0_r in H. destruct (uc_chr_f (length s) s 0 off 0) as [q|]; [|exact H].
+  rewrite Nat.sub_0_r in H. destruct H as [H1 H2]. split; [lia|exact H2].
+Qed.
+
+(* the leading white space of a line, counted on the bytes *)
+Lemma uc_isspace_hd t : uc_isspace (hd_chr t) = uc_isspace t.
+Proof. unfold uc_isspace. rewrite hd0_hd_chr. reflexivity. Qed.
+Lemma uc_kind_hd t : uc_kind (hd_chr t) = uc_kind t.
+Proof. unfold uc_kind, uc_isspace, uc_isalpha, uc_isdigit. rewrite hd0_hd_chr. reflexivity. Qed.
+Lemma count_space_cons t : t <> [] ->
+  count_space (chop t) = if uc_isspace t then 1 + count_space (chop (skipn (Nat.max 1 (uc_next t)) t)) else 0.
+Proof. intro Ht. rewrite chop_cons by exact Ht. cbn [count_space]. rewrite uc_isspace_hd. reflexivity. Qed.
+Lemma count_space_le l : 0 <= count_space l <= slen l.
+Proof.
+  unfold slen. induction l as [|c l IH]; cbn [count_space length]; [lia|]. destruct (uc_isspace c); lia.
+Qed.
+Lemma chop_f_length_le : forall k t, nonul t -> (length (chop_f k t) <= length t)%nat.
+Proof.
+  induction k as [|k IH]; intros t Hn; [cbn; lia|]. destruct t as [|x t]; [cbn; lia|].
+  cbn [chop_f length]. destruct (nonul_next (x :: t) Hn ltac:(discriminate)) as (E1 & E3 & E2). rewrite E1.
+  specialize (IH (skipn (uc_next (x :: t)) (x :: t)) (nonul_skipn _ _ Hn)). rewrite skipn_length in IH. cbn [length] in *. lia.
+Qed.
+Lemma chop_length_le t : nonul t -> (length (chop t) <= length t)%nat.
+Proof. apply chop_f_length_le. Qed.
+
+(* ------------------------------------------------------------------ lbuf_indents *)
+Definition indents_loop : stmt :=
+  match fn_body cf_lbuf_indents with SSeq _ (SSeq _ (SSeq (SSeq _ w) _)) => w | _ => SSkip end.
+
+Lemma indents_loop_ok F d m b s v0 v1 : str_at m b s -> nonul s -> (length s < F)%nat ->
+  forall k p n fuel, (length s - p <= k)%nat -> (p <= length s)%nat -> (k < fuel)%nat ->
+  0 <= n -> n + Z.of_nat (length s - p) <= 2147483647 ->
+  exists p', exec (callf cprog F (S (S d))) fuel indents_loop (mkst [v0; v1; VPtr b (Z.of_nat p); VInt n] m)
+             = ONormal (mkst [v0; v1; VPtr b p'; VInt (n + count_space (chop (skipn p s)))] m).
+Proof.
+  intros Hs Hnn HF. pose proof (nonul_lt256 s Hnn) as H256.
+  induction k as [|k IH]; intros p n fuel Hk Hp Hf Hn Hmax; (destruct fuel as [|fuel]; [lia|]);
+    unfold indents_loop; cbn [fn_body cf_lbuf_indents]; rewrite exec_for; xstep;
+    rewrite (tr_uc_isspace m b s p (S d) F Hs H256 Hp); xstep.
+  - assert (p = length s) as -> by lia. rewrite skipn_end by lia. cbn. rewrite Z.add_0_r. eexists; reflexivity.
+  - destruct (Nat.eq_dec p (length s)) as [->|Hne].
+    + rewrite skipn_end by lia. cbn. rewrite Z.add_0_r. eexists; reflexivity.
+    + pose proof (skipn_ne s p ltac:(lia)) as Ht.
+      rewrite (count_space_cons _ Ht).
+      destruct (nonul_next _ (nonul_skipn s p Hnn) Ht) as (E1 & E3 & E2). rewrite skipn_length in E3.
+      destruct (uc_isspace (skipn p s)); xstep; [|rewrite Z.add_0_r; eexists; reflexivity].
+      rewrite (tr_uc_next m b s p d F Hs H256) by lia. xstep.
+      rewrite chk_I32 by lia. xstep. change (SFor _ _ _) with indents_loop.
+      destruct (IH (p + uc_next (skipn p s))%nat (n + 1) fuel) as [p' Hp']; try lia.
+      rewrite Hp'. exists p'. rewrite E1, skipn_skipn. rewrite Z.add_assoc. reflexivity.
+Qed.
+
+Theorem tr_lbuf_indents m lb bln lbs lines r d fuel : lbuf_at m lb bln lbs lines -> lines_small lines ->
+  (maxlen lines < fuel)%nat ->
+  callf cprog fuel (S (S (S d))) F_lbuf_indents [VPtr lb 0; VInt r] m = Ok (VInt (lbuf_indents (map chop lines) r), m).
+Proof.
+  intros R Hsm Hf. enter F_lbuf_indents cf_lbuf_indents. xstep.
+  rewrite (tr_lbuf_get m lb bln lbs lines r (S d) fuel R Hsm). xstep.
+  unfold lbuf_indents. rewrite getl_rowidx. unfold line_ptr. destruct (rowidx lines r) as [i|] eqn:Ei; xstep; [|reflexivity].
+  assert (Hi : (i < length lines)%nat).
+  { unfold rowidx in Ei. destruct (Z.leb_spec 0 r); [|discriminate]. destruct (Z.ltb_spec r (Z.of_nat (length lines))); [|discriminate].
+    injection Ei as <-. lia. }
+  pose proof (la_str _ _ _ _ _ R i Hi) as Hs. pose proof (nthl_nonul lines i (la_nonul _ _ _ _ _ R)) as Hnn.
+  pose proof (maxlen_ge lines i) as Hml. pose proof (nthl_small lines i Hsm) as Hsmall.
+  change (SFor _ _ _) with indents_loop. change (VPtr (nth i lbs O) 0) with (VPtr (nth i lbs O) (Z.of_nat 0)).
+  destruct (indents_loop_ok fuel d m _ _ (VPtr lb 0) (VInt r) Hs Hnn ltac:(lia) (length (nthl lines i)) O 0 fuel) as [p' Hp']; try lia.
+  rewrite Hp'. xstep. cbn [skipn option_map]. reflexivity.
+Qed.
